@@ -47,6 +47,8 @@ def base_scenarios(rng, n):
         sc["cfg"]["deadline_s"] = rng.choice([1000.0, 1000.0, 2.0])
         if k % 5 == 4:
             sc["cfg"]["no_retry"] = True
+        if k % 4 == 1:
+            sc["cfg"]["breaker"]["falsy"] = True  # a breaker object whose truth value means "closed"
         if k % 7 == 3:
             sc["op_two_susp"] = True
         # make long failing scripts common so that many callbacks are reached
